@@ -3,6 +3,7 @@ import numpy
 from scipy.spatial import Delaunay
 from sklearn.cluster import KMeans
 from sklearn.metrics.pairwise import euclidean_distances
+from sklearn.utils import check_random_state
 from ._kmeans_constraint_ import constraint_kmeans, constraint_predictions
 
 
@@ -121,7 +122,7 @@ class ConstraintKMeans(KMeans):
                 KMeans.fit(self, X, y, sample_weight=sample_weight)
                 state = None
             else:
-                state = numpy.random.RandomState(self.random_state)
+                state = check_random_state(self.random_state)
                 labels = state.randint(
                     0, self.n_clusters, X.shape[0], dtype=numpy.int32
                 )
